@@ -10,6 +10,7 @@ import (
 	"path/filepath"
 	"runtime"
 	"sync"
+	"sync/atomic"
 	"testing"
 	"time"
 
@@ -65,6 +66,7 @@ func raceLogTail() string {
 }
 
 var c20Stuck bool
+var c20Done int64 // operations completed by the goroutines of the running case
 
 func c20Check(c c20Case, st *stats.Run) error {
 	if c20Stuck {
@@ -172,6 +174,7 @@ func c20Check(c c20Case, st *stats.Run) error {
 		wg.Add(1)
 		go func(gi int, ops []c20Op) {
 			defer wg.Done()
+			defer atomic.AddInt64(&c20Done, 1)
 			defer func() {
 				if r := recover(); r != nil {
 					select {
@@ -182,6 +185,9 @@ func c20Check(c c20Case, st *stats.Run) error {
 			}()
 			<-start
 			for oi, o := range ops {
+				if oi > 0 {
+					atomic.AddInt64(&c20Done, 1)
+				}
 				for y := 0; y < o.Yield; y++ {
 					runtime.Gosched()
 				}
@@ -240,6 +246,7 @@ func c20Check(c c20Case, st *stats.Run) error {
 						iters = 10 + iters%60
 					}
 					for it := 0; it < iters; it++ {
+						atomic.AddInt64(&c20Done, 1)
 						j := (gi + it) % 3
 						got, err, _ := decryptLib(manyEach[k][j], hx.Delivery{Mode: "whole"}, []int{chunk}, false, ids[k])
 						if err != nil || !bytes.Equal(got, fixedPlain[100*j:100*j+50]) {
@@ -281,11 +288,24 @@ func c20Check(c c20Case, st *stats.Run) error {
 	close(start)
 	finished := make(chan struct{})
 	go func() { wg.Wait(); close(finished) }()
-	select {
-	case <-finished:
-	case <-time.After(150 * time.Second):
+	// a deadlock makes no progress at all; a busy machine makes slow progress
+	lastDone, idle := int64(-1), 0
+wait:
+	for {
+		select {
+		case <-finished:
+			break wait
+		case <-time.After(15 * time.Second):
+		}
+		if d := atomic.LoadInt64(&c20Done); d != lastDone {
+			lastDone, idle = d, 0
+			continue
+		}
+		if idle++; idle < 10 {
+			continue
+		}
 		c20Stuck = true // the blocked goroutines stay behind: nothing run after this in the same process means anything
-		return pbt.Failf("C20/concurrent-result-differs", "%d goroutines sharing %v values did not finish within 150 s (every operation takes well under a second alone): they block one another", len(c.Goroutines), c.Kinds)
+		return pbt.Failf("C20/concurrent-result-differs", "%d goroutines sharing %v values completed no operation at all for 150 s (each takes well under a second alone): they block one another", len(c.Goroutines), c.Kinds)
 	}
 	close(errs)
 	if raceLogSize() != before {
@@ -363,7 +383,7 @@ func TestC20(t *testing.T) {
 			gs = append(gs, []c20Op{{Op: "enc", Len: 10}})
 		}
 		yield(c20Case{Kinds: []string{"scrypt16"}, Goroutines: gs, Procs: 4, Fresh: true})
-		if s.Thorough() {
+		if s.Thorough() && s.Shard == 0 {
 			// many more goroutines than the process had processors when it started
 			yield(c20Case{Kinds: []string{"scrypt16"}, Goroutines: append(append(append(gs, gs...), gs...), gs[:2]...), Procs: 16, Fresh: false})
 		}
